@@ -187,6 +187,18 @@ class Ctx:
             self.missing(rule, f"floor:{what}", where,
                          f"rule matched {n} {what}, fewer than the {minimum} confirmed by hand")
 
+    def absorb(self, fn, rule: str, only=None):
+        """Run a rule function of another property module on a scratch context over the same tree and
+        adopt its obligations under this property's rule id `rule`."""
+        sub = Ctx(self.tree, self.prop, self.tier)
+        fn(sub)
+        for o in sub.obs:
+            if only is not None and not only(o):
+                continue
+            self._add(Ob(rule, o.key, o.file, o.line, o.outcome, o.msg, o.expected, o.found))
+        for k in ("files", "functions"):
+            self.analysed[k] |= sub.analysed[k]
+
     def note(self, s: str):
         self.notes.append(s)
 
